@@ -138,11 +138,15 @@ static void wake_waiters (nsync_dll_list_ to_wake_list, int all_readers) {
 	/* Wake any waiters we didn't manage to enqueue on the mu. */
 	for (p = nsync_dll_first_ (to_wake_list); p != NULL; p = next) {
 		struct nsync_waiter_s *p_nw = DLL_NSYNC_WAITER (p);
+		/* *p_nw may be on the stack of a thread in nsync_wait_n(), which
+		   may return as soon as it sees waiting==0; so the store to
+		   "waiting" must be the last access to *p_nw.  */
+		nsync_semaphore *p_sem = p_nw->sem;
 		next = nsync_dll_next_ (to_wake_list, p);
 		to_wake_list = nsync_dll_remove_ (to_wake_list, p);
 		/* Wake the waiter. */
 		ATM_STORE_REL (&p_nw->waiting, 0); /* release store */
-		nsync_mu_semaphore_v (p_nw->sem);
+		nsync_mu_semaphore_v (p_sem);
 	}
 }
 
@@ -474,15 +478,32 @@ static int cv_dequeue (void *v, struct nsync_waiter_s *nw) {
 	/* acquire spinlock */
 	uint32_t old_word = nsync_spin_test_and_set_ (&pcv->word, CV_SPINLOCK, CV_SPINLOCK, 0);
 	if (ATM_LOAD_ACQ (&nw->waiting) != 0) {
-		pcv->waiters = nsync_dll_remove_ (pcv->waiters, &nw->q);
-		ATM_STORE (&nw->waiting, 0);
-		was_queued = 1;
+		/* *nw is either still on pcv->waiters, or a waker has already
+		   moved it to its own list under the spinlock and is about to
+		   clear nw->waiting.  Only the former may be dequeued here.  */
+		nsync_dll_element_ *p;
+		for (p = nsync_dll_first_ (pcv->waiters); p != NULL && p != &nw->q;
+		     p = nsync_dll_next_ (pcv->waiters, p)) {
+		}
+		if (p != NULL) {
+			pcv->waiters = nsync_dll_remove_ (pcv->waiters, &nw->q);
+			ATM_STORE (&nw->waiting, 0);
+			was_queued = 1;
+		}
 	}
 	if (nsync_dll_is_empty_ (pcv->waiters)) {
 		old_word &= ~(CV_NON_EMPTY);
 	}
 	/* Release spinlock. */
 	ATM_STORE_REL (&pcv->word, old_word); /* release store */
+	if (!was_queued) {
+		/* A waker chose *nw; wait until it has finished with it, because
+		   *nw may cease to exist when the caller returns.  */
+		unsigned attempts = 0;
+		while (ATM_LOAD_ACQ (&nw->waiting) != 0) {
+			attempts = nsync_spin_delay_ (attempts);
+		}
+	}
 	return (was_queued);
 }
 
